@@ -192,7 +192,9 @@ EvSolve(e) ==
                                           /\ \A k \in DOMAIN rc.objectives : LET w == PairsFn(e.objectives[k]) IN
                                                 /\ Len(rc.objectives[k]) = Len(rc.cols)
                                                 /\ \A j \in DOMAIN rc.cols : rc.objectives[k][j] = (IF rc.cols[j].id \in DOMAIN w THEN w[rc.cols[j].id] ELSE 0))
-           \cup QFail("ids_aligned", AnswersOK(e, LAMBDA j : (~rc.cols[j].gen) \/ e.include_virtual))
+           \* (helper variables are the ones the LIBRARY named: every column whose id the caller did not give - by the recipe, not by the
+           \* flag the library keeps)
+           \cup QFail("ids_aligned", AnswersOK(e, LAMBDA j : (rc.cols[j].id \in RExplicit(e.recipe) \cup lids) \/ e.include_virtual))
            \cup QFail("optimal", (e.solver = "exact" /\ e.enum) => \A k \in DOMAIN e.returned : LET P == PolyPts(rc) IN
                             IF e.returned[k].none THEN P = {} ELSE e.returned[k].x \in ArgMax(rc.objectives[k], P))
            \* (the encoder's own reduction may drop columns - and is not solution preserving, observation O10 -: with try_reduce_before only
